@@ -58,9 +58,6 @@ def h_partition(nr, nc, axis, lname, remove_empty=False, zeros=1):
         if remove_empty:
             for ax in ('sample', 'observation'):
                 keep = [k for k in range(len(e_atm.ids(ax))) if any(is_sym(x) or x != 0 for x in e_atm.vec(ax, k))]
-                # remove_empty's sum>0 criterion (known C08 finding) is not re-litigated here: positive-sum paths only
-                if not bool(and_(*[ssum(e_atm.vec(ax, k)) > 0 for k in keep])):
-                    raise Abort()
                 e_atm = e_atm.select(ax, keep)
         same_table('partition:part', observe(tab), e_atm, type_=True, **sig)
         coherent('partition:coherent', tab, **sig)
@@ -217,6 +214,6 @@ META = {
     'bounds': {'quick': {'shapes': '2x3 (sample axis), 3x2 (observation axis): 3 ids on the partitioned axis', 'labelers': '7', 'pathway menus': '5 per vector'},
                'thorough': {'shapes': '2x3, 3x2, 3x3 both axes'}},
     'outside': ['custom collapse_f', 'strict / incomplete pathways', 'non-string collapse labels', 'IEEE rounding of sums and quotients',
-                'remove_empty inside partition on non-positive-sum vectors (that is the recorded C08 finding)'],
+                'larger tables'],
     'assumptions': ['scipy.sparse model incl. dok accumulation', 'labels are hashable or lists (tuple-ised as the library does)'],
 }
